@@ -123,6 +123,10 @@ func (r *rec) observe(b *board.Board, e *Ev, judged bool) {
 	}
 	if r.obs["gen"] {
 		g := proj.Generated(b, r.ms)
+		if r.rng.Intn(25) == 0 {
+			// the store almost (or exactly) full of the moves of shallower plies
+			g = proj.GeneratedNested(b, r.ms, move.StoreSize-len(g)-[]int{0, 0, 1, 2, 7}[r.rng.Intn(5)])
+		}
 		a := proj.Accepted(b)
 		e.Gen, e.Acc = &g, &a
 	}
